@@ -50,6 +50,13 @@ def make_tree():
         with open(os.path.join(TREE, rel), "w") as f:
             f.write(text)
     os.symlink("dirA", os.path.join(TREE, "linkA"))
+    # two *different* files whose paths look alike after a lexical clean-up of `..`:
+    #   <tree>/schema.graphql (= dirA's)   vs   <tree>/cur/../schema.graphql with cur -> dirB/sub (= dirB's)
+    os.makedirs(os.path.join(TREE, "dirB", "sub"))
+    os.symlink(os.path.join("dirB", "sub"), os.path.join(TREE, "cur"))
+    for name in ("schema.graphql", "query.graphql"):
+        with open(os.path.join(TREE, name), "w") as f:
+            f.write(files["dirA/" + name])
     return files
 
 
@@ -78,6 +85,8 @@ def alphabet(files):
         "missS": call("dirA/nope.graphql", "dirA/query.graphql"),
         "badS": call("bad/schema.graphql", "dirA/query.graphql"),
         "extS": call("bad/schema.txt", "dirA/query.graphql"),
+        "Root": call("schema.graphql", "query.graphql"),
+        "BviaLink": call("cur/../schema.graphql", "cur/../query.graphql"),
         "Astr": call("dirA/schema.graphql", text=files["dirA/query.graphql"]),
         "Ajson": call("dirA/schema.json", "dirA/query.graphql"),
         "Aopt": call("dirA/schema.graphql", "dirA/query.graphql", options={"normalization": "rust", "other_variant": True,
@@ -185,7 +194,7 @@ def run(tier):
     hist_jobs = [list(h) for n in range(2, L + 1) for h in itertools.product(core, repeat=n)]
     if tier == "quick":
         # length 3 over the collision-relevant sub-alphabet
-        sub = ["A", "A'", "B", "AqBs", "missQ", "badS", "Aopt"]
+        sub = ["A", "A'", "B", "AqBs", "missQ", "badS", "Aopt", "Root", "BviaLink"]
         hist_jobs += [list(h) for h in itertools.product(sub, repeat=3)]
     else:
         sub = ["A", "A'", "B", "AqBs", "missQ", "badS", "Aopt"]
@@ -195,7 +204,7 @@ def run(tier):
         check_history(h, res, "unrolled")
     log(f"[C08] unrolled histories: {len(hist_jobs)}")
     # ------------------------------------------------------------ 3. schedules
-    sched_alpha = ["A", "A'", "B", "missQ"]
+    sched_alpha = ["A", "A'", "B", "missQ", "Root", "BviaLink"]
     programs = []
     for a, b in itertools.product(sched_alpha, repeat=2):
         programs.append([[a], [b]])
